@@ -67,6 +67,10 @@ def run(rep):
     render.check_pool_words()
     rated = render.rated_currencies()
     curs = [c for c in ("usd", "try", "eur") if c in rated] if quick else rated
+    # money in a currency that has no entry in the rate table is money all the same (the formulas need no rate)
+    unrated = render.unrated_currencies()
+    pick = [c for c in ("cad", "uah") if c in unrated] or unrated[:2]
+    curs = curs + (pick if quick else sorted(set(pick + unrated[::11])))
     rep.rule = ("TLC enumerates the phrases X + p%%, X - p%%, p%% of / on / off X, A is what %% of B, A is p%% of what over 6 values x 6 percentages (negative, zero, fractional, >100), "
                 "plain and as money in %d currencies; a case = one phrase in one operand order, one percent spelling (p%% / %%p), one money spelling and one separator configuration; "
                 "non-trivial = non-zero percentage and value. Random part: random decimals with <= 2 fraction digits, validated by TLC." % len(curs))
